@@ -101,6 +101,7 @@ class Model(SOCModel):
                 self.last = self.vars[-1].first + self.vars[-1].size
 
             more_exp = []
+            atom_exp = []
             more_others = []
             more_det = []
             if self.obj is not None:
@@ -166,7 +167,7 @@ class Model(SOCModel):
                             exp_cone_constr = ExpConstr(constr.model,
                                                         exprs[0],
                                                         -exprs[2], exprs[1])
-                            self.exp_constr.append(exp_cone_constr)
+                            atom_exp.append(exp_cone_constr)
                     elif constr.xtype == 'L':
                         affine_out = constr.affine_out * (1/constr.multiplier)
                         exprs_list = rso_broadcast(constr.affine_in,
@@ -175,7 +176,7 @@ class Model(SOCModel):
                         for exprs in exprs_list:
                             exp_cone_constr = ExpConstr(constr.model,
                                                         exprs[2], exprs[0], exprs[1])
-                            self.exp_constr.append(exp_cone_constr)
+                            atom_exp.append(exp_cone_constr)
                 elif isinstance(constr, CvxConstr):
                     if constr.xtype == 'P':
                         affine_out = constr.affine_out * (1/constr.multiplier)
@@ -195,14 +196,14 @@ class Model(SOCModel):
                         for exprs in exprs_list:
                             exp_cone_constr = ExpConstr(constr.model,
                                                         exprs[0], -exprs[1], 1)
-                            self.exp_constr.append(exp_cone_constr)
+                            atom_exp.append(exp_cone_constr)
                     elif constr.xtype == 'L':
                         affine_out = constr.affine_out * (1/constr.multiplier)
                         exprs_list = rso_broadcast(constr.affine_in, affine_out)
                         for exprs in exprs_list:
                             exp_cone_constr = ExpConstr(constr.model,
                                                         exprs[1], exprs[0], 1)
-                            self.exp_constr.append(exp_cone_constr)
+                            atom_exp.append(exp_cone_constr)
                     elif constr.xtype == 'F':
                         affine_out = constr.affine_out * (1/constr.multiplier)
                         exprs_list = rso_broadcast(constr.affine_in, affine_out)
@@ -213,11 +214,11 @@ class Model(SOCModel):
                             exp_cone_constr = ExpConstr(constr.model,
                                                         exprs[0] + exprs[1],
                                                         aux_var[s, 0], 1)
-                            self.exp_constr.append(exp_cone_constr)
+                            atom_exp.append(exp_cone_constr)
                             exp_cone_constr = ExpConstr(constr.model,
                                                         exprs[1],
                                                         aux_var[s, 1], 1)
-                            self.exp_constr.append(exp_cone_constr)
+                            atom_exp.append(exp_cone_constr)
                     elif constr.xtype == 'N':
                         affine_in = constr.affine_in
                         affine_out = constr.affine_out * (1/constr.multiplier)
@@ -236,12 +237,12 @@ class Model(SOCModel):
                                                         -aux_rvar[s] * (1/(order - 1)),
                                                         aux_yvar,
                                                         aux_xvar[s])
-                            self.exp_constr.append(exp_cone_constr)
+                            atom_exp.append(exp_cone_constr)
                             exp_cone_constr = ExpConstr(constr.model,
                                                         aux_rvar[s],
                                                         aux_zvar[s],
                                                         aux_xvar[s])
-                            self.exp_constr.append(exp_cone_constr)
+                            atom_exp.append(exp_cone_constr)
                 elif isinstance(constr, LMIConstr):
                     lmi.append({'linear': constr.linear,
                                 'const': constr.const,
@@ -252,7 +253,7 @@ class Model(SOCModel):
                     self.aux_constr.append(expr[tridx] == expr.T[tridx])
 
             xmat = []
-            for constr in self.exp_constr + more_exp:
+            for constr in self.exp_constr + atom_exp + more_exp:
                 aux_var = self.dvar(3, aux=True)
                 self.aux_constr.append(aux_var[0] - constr.expr1 == 0)
                 self.aux_constr.append(aux_var[1] - constr.expr2 <= 0)
